@@ -135,4 +135,12 @@ theorem c06_lock_order_acyclic :
     FV.Locks.acyclic [1, 2, 3, 4, 5, 6, 7, 8] FV.Generated.Locks.mutexTags FV.Generated.Locks.facts = true := by
   decide +kernel
 
+/-- …and what that decision means (`FV.Locks.acyclic_sound`): no mutex of lib/go lies on a cycle of order edges
+`m → m'` ("m' is acquired — lexically, or by anything reachable from a call — while m is held"), over every
+call path of the recorded call graph. -/
+theorem c06_no_lock_order_cycle {m : Nat}
+    (hrel : FV.Locks.relevant [1, 2, 3, 4, 5, 6, 7, 8] FV.Generated.Locks.mutexTags m = true) :
+    ¬ FV.Locks.Chain FV.Generated.Locks.facts m m :=
+  FV.Locks.acyclic_sound _ _ _ c06_lock_order_acyclic hrel
+
 end FV.C06
